@@ -1,0 +1,55 @@
+//! Read-only accessor to the internal arena (cargo feature `verif-hooks`, off by default).
+
+use super::*;
+use crate::PrefixSet;
+
+/// One slot of the arena, as seen by [`PrefixMap::verif_snapshot`].
+#[derive(Debug)]
+pub struct VerifSlot<'a, P, T> {
+    /// The prefix currently stored in the slot.
+    pub prefix: &'a P,
+    /// The value currently stored in the slot.
+    pub value: Option<&'a T>,
+    /// Index of the left child.
+    pub left: Option<usize>,
+    /// Index of the right child.
+    pub right: Option<usize>,
+}
+
+/// Read-only snapshot of the internal state of a [`PrefixMap`].
+#[derive(Debug)]
+pub struct VerifSnapshot<'a, P, T> {
+    /// All slots ever allocated (slot 0 is the root).
+    pub slots: Vec<VerifSlot<'a, P, T>>,
+    /// The content of the free list.
+    pub free: Vec<usize>,
+    /// The cached number of entries.
+    pub count: usize,
+}
+
+impl<P, T> PrefixMap<P, T> {
+    /// Get a read-only snapshot of the arena, the free list and the cached entry counter.
+    pub fn verif_snapshot(&self) -> VerifSnapshot<'_, P, T> {
+        let table: &Vec<Node<P, T>> = self.table.as_ref();
+        VerifSnapshot {
+            slots: table
+                .iter()
+                .map(|n| VerifSlot {
+                    prefix: &n.prefix,
+                    value: n.value.as_ref(),
+                    left: n.left,
+                    right: n.right,
+                })
+                .collect(),
+            free: self.free.clone(),
+            count: self.count,
+        }
+    }
+}
+
+impl<P> PrefixSet<P> {
+    /// Get a read-only snapshot of the arena, the free list and the cached entry counter.
+    pub fn verif_snapshot(&self) -> VerifSnapshot<'_, P, ()> {
+        self.0.verif_snapshot()
+    }
+}
